@@ -1249,7 +1249,7 @@ class _FillStore(object):
         self.vals.append(v)
 
 
-_PRIVATE_MISSING = "skipped: the private name %s of lena is not there (renamed or removed); nothing public observes it"
+_PRIVATE_MISSING = "the private name %s of lena is not there (renamed or removed); nothing public observes it"
 
 
 def _private(module, name):
